@@ -80,7 +80,7 @@ func (m *lockedMock) snapshot() (string, int) {
 func c15SchedScenario(c *fw.Ctx, sp c15Spec) schedScenario {
 	run := func(cfg vsched.Config) (res schedResult) {
 		var e *vsched.Exec
-		var h1, h2, bad *lockedMock
+		var h1, h2, h3, bad *lockedMock
 		var realL rest.VerifListener
 		var probs [][2]string
 		var pmu sync.Mutex
@@ -93,11 +93,12 @@ func c15SchedScenario(c *fw.Ctx, sp c15Spec) schedScenario {
 				hub := msghub.New(5, ext)
 				var ctx context.Context
 				ctx, cancel = context.WithCancel(context.Background())
-				h1, h2 = &lockedMock{}, &lockedMock{}
+				h1, h2, h3 = &lockedMock{}, &lockedMock{}, &lockedMock{}
 				t1done, t2done := make(chan struct{}), make(chan struct{})
 				init := func() {
-					// join order H1, troublemaker, H2 (map iteration is pinned to slot order, so
-					// the troublemaker sits between the two healthy listeners in every broadcast)
+					// join order H1, troublemaker, H2, H3 (map iteration is pinned to slot order, so
+					// the troublemaker has one healthy listener before it and two after it in every
+					// broadcast)
 					if sp.Trouble == "overflow-full-opqueue" {
 						// h1 holds the hub inside the broadcast of event 101 until the op queue is full
 						h1.gateAt, h1.gate, h1.entered = sp.Dispatch+1, make(chan struct{}), make(chan struct{})
@@ -115,6 +116,7 @@ func c15SchedScenario(c *fw.Ctx, sp c15Spec) schedScenario {
 						}
 					}
 					hub.AddListener(h2)
+					hub.AddListener(h3)
 				}
 				dispatcher := func() {
 					defer close(t1done)
@@ -208,7 +210,8 @@ func c15SchedScenario(c *fw.Ctx, sp c15Spec) schedScenario {
 		res.Probs = append(res.Probs, probs...)
 		g1, _ := h1.snapshot()
 		g2, _ := h2.snapshot()
-		res.Outcome = fmt.Sprintf("h1=[%s] h2=[%s] late=%v deadlock=%v", g1, g2, lateChecked, e.Deadlock)
+		g3, _ := h3.snapshot()
+		res.Outcome = fmt.Sprintf("h1=[%s] h2=[%s] h3=[%s] late=%v deadlock=%v", g1, g2, g3, lateChecked, e.Deadlock)
 		if e.Deadlock {
 			// name the cause if it is the hub parked inside a listener
 			for i := range res.Probs {
@@ -235,12 +238,15 @@ func c15SchedScenario(c *fw.Ctx, sp c15Spec) schedScenario {
 			want = append(want, "a/late")
 		}
 		w := strings.Join(want, " ")
-		if g1 != w || g2 != w {
-			which := "h2 (joined after the troublemaker)"
+		if g1 != w || g2 != w || g3 != w {
+			which := "h3 (joined second after the troublemaker)"
+			if g2 != w {
+				which = "h2 (joined after the troublemaker)"
+			}
 			if g1 != w {
 				which = "h1 (joined before the troublemaker)"
 			}
-			res.Probs = append(res.Probs, [2]string{"healthy-listener-missed-event|" + sp.Trouble, fmt.Sprintf("healthy listener %s received [%s] / [%s], expected [%s]: a failing listener made another one miss an event", which, g1, g2, w)})
+			res.Probs = append(res.Probs, [2]string{"healthy-listener-missed-event|" + sp.Trouble, fmt.Sprintf("healthy listener %s did not receive every event exactly once: h1 [%s] / h2 [%s] / h3 [%s], expected [%s] each: a failing listener disturbed the delivery to another one", which, g1, g2, g3, w)})
 		}
 		return res
 	}
